@@ -1634,6 +1634,39 @@ def _pos_le(a, b):
 _IDENT_ESC = re.compile(r"\\(?:([0-9a-fA-F]{1,6})[ \t\n\r\f]?|(.))", re.S)
 
 
+def css_serialize_ident(v):
+    """the canonical spelling of an identifier (CSSOM `serialize an identifier`, which is what cssparser's `to_css_string` writes)"""
+    def hexesc(c):
+        return "\\%x " % ord(c)
+    def name(rest):
+        out = ""
+        for c in rest:
+            if c == "\0":
+                out += "\ufffd"
+            elif c.isascii() and (c.isalnum() or c in "_-"):
+                out += c
+            elif not c.isascii():
+                out += c
+            elif ord(c) < 0x20 or ord(c) == 0x7f:
+                out += hexesc(c)
+            else:
+                out += "\\" + c
+        return out
+    if v == "":
+        return ""
+    if v.startswith("--"):
+        return "--" + name(v[2:])
+    if v == "-":
+        return "\\-"
+    out = ""
+    if v[0] == "-":
+        out, v = "-", v[1:]
+    if v[:1].isascii() and v[:1].isdigit():
+        out += hexesc(v[0])
+        v = v[1:]
+    return out + name(v)
+
+
 def css_unescape(s):
     return _IDENT_ESC.sub(lambda m: chr(int(m.group(1), 16)) if m.group(1) else m.group(2), s)
 
@@ -1788,7 +1821,9 @@ def _check_src(an, add, which, e, t, ens, src_text, closer, cin):
             add("map-name-missing", "prefixed class %s has no name in the %s map" % (t.short(), which), output=which, entry=en, at=list(e.src.pos))
         else:
             spelled = src_text.slice(e.src.pos, tok_end(e.src, an.tin, cin, src_text.end())) if src_text else None
-            if name != spelled and css_unescape(name) != e.src.val:
+            # AMBIGUITY: "original spelling" — the canonical spelling of the same identifier (`\73 m` -> `sm`, what the token serializer writes) is accepted
+            # next to the literal source text; the bare identifier VALUE (`sm:flex` for `sm\:flex`) is not a spelling of it
+            if name != spelled and name != css_serialize_ident(e.src.val):
                 add("map-name-wrong", "prefixed class %s carries the name %r, original spelling %r" % (t.short(), name, spelled),
                     output=which, entry=en, at=list(e.src.pos))
     elif e.role in ("rpx", "rpx-optional") and e.kind == "dim" and t.unit == "vw":
